@@ -118,6 +118,10 @@ impl RtpsStatefulReader {
         source_guid_prefix: GuidPrefix,
         source_timestamp: Option<Time>,
     ) {
+        // A fragment size of zero is invalid and would divide by zero in the writer proxy
+        if data_frag_submessage.fragment_size() == 0 {
+            return;
+        }
         let writer_guid = Guid::new(source_guid_prefix, data_frag_submessage.writer_id());
         let sequence_number = data_frag_submessage.writer_sn();
         if let Some(writer_proxy) = self
